@@ -846,7 +846,8 @@ class Live:
             _, s, li, rows = ev
             objs, props = self.labels[li]
             f = FCA(len(objs), len(props), rows)
-            out = call(C.Context, objs, props, f.bools())
+            cells = f.bools() if index % 3 else [tuple(int(b) for b in r) for r in f.bools()]   # cells by truthiness
+            out = call(C.Context, objs, props, cells)
             self.need(out.ok, 'context_constructs', lambda: f'Context(...) raised {out.text()} for {objs, props, rows}')
             sl = Slot(li, objs, props, f)
             sl.ctxs.append(out.value)
